@@ -100,6 +100,7 @@ def run(ctx: common.Run):
     n = 60 if ctx.tier == 'quick' else 800
     rng = ctx.substream('circuits')
     cases = [gen_noisy_circuit(cirq, rng) for _ in range(n)]
+    rng2 = ctx.substream('initial-states')
     reqs = []
     for circuit, qs in cases:
         dims = [2] * len(qs)
@@ -128,6 +129,25 @@ def run(ctx: common.Run):
                 ctx.report_witness('dm:final', 'DensityMatrixSimulator final state differs from applying each channel (sum over Kraus operators) in order / is not a valid density matrix',
                                    {'lines': [{'circuit': repr(circuit), 'split': split}], 'impl_out': [repr(np.round(got, 6).tolist())], 'spec_out': [repr(np.round(want, 6).tolist())],
                                     'theorem_or_correspondence': 'Spec.Circuit.run (Σ K ρ K†)'})
+        # 1b. a density matrix given by the caller as initial state: evolved correctly, left untouched, reusable
+        if True:
+            dim = 2 ** len(qs)
+            a_ = np.array([[complex(rng2.gauss(0, 1), rng2.gauss(0, 1)) for _ in range(dim)] for _ in range(dim)])
+            rho0 = a_ @ a_.conj().T
+            rho0 = (rho0 / np.trace(rho0)).astype(np.complex128)
+            form = rng2.choice(['matrix', 'tensor'])
+            arg = rho0.copy() if form == 'matrix' else rho0.copy().reshape((2,) * (2 * len(qs)))
+            keep = arg.copy()
+            want0 = rho_of(ctx.driver.ask([{'p': 'C02', 'op': 'dm', 'shape': [2] * len(qs), 'rho': [common.c2j(z) for z in rho0.reshape(-1)], 'ops': lean_ops(cirq, circuit, qs)}])[0])
+            sim_ = cirq.DensityMatrixSimulator(dtype=np.complex128, split_untangled_states=rng2.random() < 0.5)
+            got1 = sim_.simulate(circuit, qubit_order=qs, initial_state=arg).final_density_matrix
+            unchanged = np.array_equal(arg, keep)
+            got2 = sim_.simulate(circuit, qubit_order=qs, initial_state=arg).final_density_matrix if unchanged else got1
+            ctx.count('check', 'density-matrix:initial-' + form)
+            if not np.allclose(got1, want0, atol=1e-6) or not unchanged or not np.allclose(got2, want0, atol=1e-6):
+                ctx.report_witness('dm:initial-state', 'DensityMatrixSimulator started from a density matrix given as an array: wrong final state, or the caller\'s array was modified',
+                                   {'lines': [{'circuit': repr(circuit), 'form': form}], 'impl_out': [repr(np.round(got1, 6).tolist()), 'caller array unchanged: %s' % unchanged], 'spec_out': [repr(np.round(want0, 6).tolist())],
+                                    'theorem_or_correspondence': 'Spec.Circuit.run (Σ K ρ K†) from ρ0'})
         # 2. trajectories: exact unravelling
         def once(prng):
             r = cirq.Simulator(seed=prng, dtype=np.complex128).simulate(circuit, qubit_order=qs)
@@ -249,6 +269,10 @@ def check_noise_models(ctx, cirq, n):
             # corpus: the recorded witness of the known finding noise:prefix-split always runs
             q1 = cirq.LineQubit(1)
             circuit, ch, k, kind = cirq.Circuit([cirq.Moment(), cirq.Moment((cirq.Y**-0.903).on(q1))]), cirq.bit_flip(0.1), 1, 'constant'
+        if it == 1:
+            # corpus: a qubit that is idle before the first parameterized operation still gets the noise of every moment
+            qa, qb = cirq.LineQubit.range(2)
+            circuit, ch, k, kind = cirq.Circuit([cirq.Moment(cirq.X(qa)), cirq.Moment(cirq.X(qa)), cirq.Moment(cirq.X(qb) ** 0.5)]), cirq.amplitude_damp(0.3), 1, 'constant'
         if len(circuit.all_qubits()) == 0:
             continue
         qs = sorted(circuit.all_qubits())
@@ -262,7 +286,28 @@ def check_noise_models(ctx, cirq, n):
             from cirq.devices.insertion_noise_model import InsertionNoiseModel
             model = InsertionNoiseModel(ops_added={cirq.OpIdentifier(cirq.XPowGate): ch.on(qs[0]), cirq.OpIdentifier(cirq.CZPowGate, *qs[:2]) if len(qs) > 1 else cirq.OpIdentifier(cirq.ZPowGate): ch.on(qs[-1])})
         noisy = circuit.with_noise(model)
-        got = cirq.DensityMatrixSimulator(noise=model, dtype=np.complex128).simulate(circuit, qubit_order=qs).final_density_matrix
+        # the program may be split before the noise model sees it (at the first parameterized operation): every part still
+        # gets the noise of the whole register
+        sym_circuit, resolver = circuit, None
+        if it % 2 == 1:
+            import sympy
+            force = it == 1
+            moms, done = [], False
+            for mi, m in enumerate(circuit):
+                new_ops = []
+                for op in m.operations:
+                    if not done and mi >= 1 and isinstance(op.gate, cirq.EigenGate) and not isinstance(op.gate.exponent, sympy.Basic) and (force or rng.random() < 0.5):
+                        new_ops.append(op.gate._with_exponent(sympy.Symbol('t') * float(op.gate.exponent)).on(*op.qubits))
+                        done = True
+                    else:
+                        new_ops.append(op)
+                moms.append(cirq.Moment(new_ops))
+            if force:
+                moms, done = [cirq.Moment(cirq.X(qa)), cirq.Moment(cirq.X(qa)), cirq.Moment(cirq.X(qb) ** (sympy.Symbol('t') * 0.5))], True
+            if done:
+                sym_circuit, resolver = cirq.Circuit(moms), {'t': 1.0}
+                ctx.count('check', 'noise-model:parameterized-split')
+        got = cirq.DensityMatrixSimulator(noise=model, dtype=np.complex128).simulate(sym_circuit, param_resolver=resolver, qubit_order=qs).final_density_matrix
         dims = [2] * len(qs)
         init = [0j] * (2 ** len(qs))
         init[0] = 1
@@ -275,11 +320,11 @@ def check_noise_models(ctx, cirq, n):
         if not np.allclose(got, want, atol=1e-6):
             # known finding: simulate()/run() split the circuit into a prefix and a suffix *before* the noise model sees it, which
             # drops empty moments and re-packs moments; simulate_moment_steps does not split.  Identify exactly that cause.
-            steps = list(cirq.DensityMatrixSimulator(noise=model, dtype=np.complex128).simulate_moment_steps(circuit, qubit_order=qs))
+            steps = list(cirq.DensityMatrixSimulator(noise=model, dtype=np.complex128).simulate_moment_steps(sym_circuit, param_resolver=resolver, qubit_order=qs))
             unsplit = steps[-1].density_matrix(copy=True)
             from cirq.sim.simulator import split_into_matching_protocol_then_general as _split
-            pre, suf = _split(circuit, lambda op: True)
-            repacked = (list(pre) + list(suf)) != list(circuit)
+            pre, suf = _split(sym_circuit, lambda op: not cirq.is_parameterized(op))
+            repacked = (list(pre) + list(suf)) != list(sym_circuit)
             if np.allclose(unsplit, want, atol=1e-6) and repacked:
                 ctx.report_witness('noise:prefix-split', 'DensityMatrixSimulator(noise=m).simulate(c) re-packs the moments of c (prefix split) before applying the noise model',
                                    {'lines': [{'circuit': repr(circuit), 'channel': repr(ch), 'kind': kind}], 'impl_out': [repr(np.round(got, 6).tolist())],
